@@ -245,6 +245,18 @@ func (s *Server) Run(addr string, opt ...Option) error {
 		conn.disablePanicRecovery = s.disablePanicRecovery
 		localConnID := connID
 		go func() {
+			// when the server is stopping, wake up a read or write which is
+			// blocked on a client that's idle (or isn't reading), otherwise
+			// such a client could keep Stop waiting forever.
+			connDone := make(chan struct{})
+			go func() {
+				select {
+				case <-connDone:
+				case <-s.shutdownCtx.Done():
+					_ = c.SetReadDeadline(time.Now())
+					_ = c.SetWriteDeadline(time.Now().Add(shutdownWriteGrace))
+				}
+			}()
 			defer func() {
 				// this needs to be the very last thing we do, since Stop is
 				// waiting on it: when Stop returns every conn must be closed,
@@ -254,6 +266,7 @@ func (s *Server) Run(addr string, opt ...Option) error {
 			}()
 			defer func() {
 				err := conn.close()
+				close(connDone)
 				if err != nil {
 					s.logger.Error("error closing conn", "op", op, "conn", localConnID, "conn/req", "err", err)
 					// we are intentionally not returning here; since we still
@@ -285,19 +298,6 @@ func (s *Server) Run(addr string, opt ...Option) error {
 					return
 				}
 			}
-			// when the server is stopping, wake up a read or write which is
-			// blocked on a client that's idle (or isn't reading), otherwise
-			// such a client could keep Stop waiting forever.
-			connDone := make(chan struct{})
-			defer close(connDone)
-			go func() {
-				select {
-				case <-connDone:
-				case <-s.shutdownCtx.Done():
-					_ = c.SetReadDeadline(time.Now())
-					_ = c.SetWriteDeadline(time.Now().Add(shutdownWriteGrace))
-				}
-			}()
 			if err := conn.serveRequests(); err != nil {
 				s.logger.Error("error handling conn", "op", op, "conn", localConnID, "err", err.Error())
 			}
